@@ -15,6 +15,7 @@ open Piko.Gossip
 
 structure SysInv (s : Sys) : Prop where
   nd : s.net.nodes.NoDupKeys
+  snd : s.side.NoDupKeys
   dom : ∀ n, (s.side.find n).isSome = (s.net.nodes.find n).isSome
   flow : Flow.FlowInv s.Good s.HasLeft s.net
   node : ∀ n sd g, s.side.find n = some sd → s.net.nodes.find n = some g →
@@ -40,6 +41,12 @@ theorem find_feed (side : AMap String Side) (n : String) (ev : List Event) {sd :
     · simp [hk]
   | cons x xs =>
     simp only [feed, h, AMap.find_insert]
+
+theorem feed_nodup {side : AMap String Side} (h : side.NoDupKeys) (n : String) (ev : List Event) :
+    (feed side n ev).NoDupKeys := by
+  unfold feed; split
+  · exact h.insert _ _
+  · exact h
 
 theorem eta (s : Sys) : ({ net := s.net, side := s.side } : Sys) = s := rfl
 
@@ -69,7 +76,7 @@ theorem SysInv.congr {s s' : Sys} (h : SysInv s) (hnodes : s'.net.nodes = s.net.
   have hP : s'.proxyOf = s.proxyOf := by funext a; simp [Sys.proxyOf, hside]
   have hA : s'.adminOf = s.adminOf := by funext a; simp [Sys.adminOf, hside]
   have hG : s'.Good = s.Good := by funext a e; simp [Sys.Good, hL, hP, hA]
-  refine ⟨hnodes ▸ h.nd, fun n => by rw [hnodes, hside]; exact h.dom n, ?_, ?_⟩
+  refine ⟨hnodes ▸ h.nd, hside ▸ h.snd, fun n => by rw [hnodes, hside]; exact h.dom n, ?_, ?_⟩
   · rw [hG, hL]
     exact ⟨fun p hp => h.flow.nodes p (hnodes ▸ hp), hpool⟩
   · intro n sd g hs hg
@@ -80,7 +87,7 @@ theorem SysInv.congr {s s' : Sys} (h : SysInv s) (hnodes : s'.net.nodes = s.net.
 `ev`, which its syncer is given; good packets may be added to the pool. -/
 theorem SysInv.observe1 {s s' : Sys} (h : SysInv s) {n : String} {sd : Side} {g g' : CState} {ev : List Event}
     (hn : s.side.find n = some sd) (hg : s.net.nodes.find n = some g)
-    (hnodes : s'.net.nodes = s.net.nodes.insert n g')
+    (hnodes : s'.net.nodes = s.net.nodes.insert n g') (hsnd : s'.side.NoDupKeys)
     (hside : ∀ k, s'.side.find k = if n = k then some (sd.observe ev) else s.side.find k)
     (hgood : C14.Good g (g', ev)) (hown : own g' = own g)
     (hlive : SyncerSpec.Trace SyncerSpec.LiveOKn n (SyncerSpec.foldEvents sd.evs) ev)
@@ -117,7 +124,7 @@ theorem SysInv.observe1 {s s' : Sys} (h : SysInv s) {n : String} {sd : Side} {g 
         simp only [hn, Option.map_some, Option.some.injEq] at hx
         simp [hloc, hx]
       · simpa [hna] using hx
-  refine ⟨⟨by rw [hnodes]; exact h.nd.insert _ _, ?_, ?_, ?_⟩, hle⟩
+  refine ⟨⟨by rw [hnodes]; exact h.nd.insert _ _, hsnd, ?_, ?_, ?_⟩, hle⟩
   · intro k
     rw [hside, hfind]
     by_cases hk : n = k
@@ -143,6 +150,7 @@ theorem SysInv.observe1 {s s' : Sys} (h : SysInv s) {n : String} {sd : Side} {g 
 theorem SysInv.write1 {s s' : Sys} (h : SysInv s) {n : String} {sd sd' : Side} {g g' : CState}
     (hn : s.side.find n = some sd) (hg : s.net.nodes.find n = some g)
     (hnodes : s'.net.nodes = s.net.nodes.insert n g') (hpool : s'.net.pool = s.net.pool)
+    (hsnd : s'.side.NoDupKeys)
     (hside : ∀ k, s'.side.find k = if n = k then some sd' else s.side.find k)
     (hle : Sys.Le s s')
     (hgood : C14.LocalGood g g') (hevs : sd'.evs = sd.evs) (hpend : sd'.pending = sd.pending)
@@ -152,11 +160,12 @@ theorem SysInv.write1 {s s' : Sys} (h : SysInv s) {n : String} {sd sd' : Side} {
     (hownwf : OwnWF g')
     (hp : liveValue g' Cluster.proxyAddrKey = some sd'.table.localNode.proxyAddr)
     (ha : liveValue g' Cluster.adminAddrKey = some sd'.table.localNode.adminAddr)
+    (htnd : sd'.table.nodes.NoDupKeys) (htloc : ∃ row, sd'.table.nodes.find n = some row ∧ row.id = n)
     (hst : Flow.StGood s'.Good s'.HasLeft g') : SysInv s' := by
   have hni := h.node n sd g hn hg
   have hfind : ∀ k, s'.net.nodes.find k = if n = k then some g' else s.net.nodes.find k := by
     intro k; rw [hnodes, AMap.find_insert]
-  refine ⟨by rw [hnodes]; exact h.nd.insert _ _, ?_, ?_, ?_⟩
+  refine ⟨by rw [hnodes]; exact h.nd.insert _ _, hsnd, ?_, ?_, ?_⟩
   · intro k
     rw [hside, hfind]
     by_cases hk : n = k
@@ -174,7 +183,7 @@ theorem SysInv.write1 {s s' : Sys} (h : SysInv s) {n : String} {sd sd' : Side} {
     · subst hk
       simp only [if_true, Option.some.injEq] at hsk hgk
       subst hsk hgk
-      exact (hni.localWrite hgood hevs hpend hlid hrows hminv hownwf hp ha).mono hle.proxy hle.admin
+      exact (hni.localWrite hgood hevs hpend hlid hrows hminv hownwf hp ha htnd htloc).mono hle.proxy hle.admin
     · simp only [hk, if_false] at hsk hgk
       exact (h.node k sdk gk hsk hgk).mono hle.proxy hle.admin
 
@@ -211,7 +220,7 @@ theorem SysInv.recv_one {s : Sys} (h : SysInv s) (op : Gossip.Op) (hop : Flow.Re
   have hfl := Flow.FlowInv.step_recv s.good_marker h.flow op hop
   rw [Sys.gossip_eq s op hnj]
   refine h.observe1 (s' := Sys.mk (s.net.step op).net (Sys.feed s.side (s.net.step op).who (s.net.step op).events))
-    hsd hg hnodes (fun k => Sys.find_feed _ _ _ hsd k) hgood hown (hlive sd hsd) hfl.2.1 ?_ hfl.1.pool
+    hsd hg hnodes (Sys.feed_nodup h.snd _ _) (fun k => Sys.find_feed _ _ _ hsd k) hgood hown (hlive sd hsd) hfl.2.1 ?_ hfl.1.pool
   exact hfl.1.find (by rw [hnodes]; exact AMap.find_insert_self _ _ _)
 
 theorem SysInv.live_of_notLive {s : Sys} (op : Gossip.Op) (h : SysInv s) (hop : Flow.Recv op)
@@ -387,7 +396,14 @@ theorem SysInv.step_join {s : Sys} (h : SysInv s) (n m : String) (rd : Bool) (no
                 (sortDigest (digest sn)) true)) :=
             Flow.sortDelta_good (Flow.delta_good (h1.flow.find hs1m) _ _)
           have hap := Flow.applyDelta_good (Sys.good_marker _) now (h1.flow.find hs1n) hreply
-          refine (h1.observe1 (s' := s.gossip (.join n m true now)) hsdn hs1n ?_ ?_
+          have hsideEq : (s.gossip (.join n m true now)).side =
+              Sys.feed (s.gossip (.join n m false now)).side n
+                (applyDelta now sn (sortDelta (delta
+                  (applyDigest (applyDelta now sm (localDelta sn)).1 (sortDigest (digest sn))).1
+                  (sortDigest (digest sn)) true))).2 := by
+            simp [Sys.gossip, Net.step, hn, hm, hnm, Sys.replyEvents]
+          refine (h1.observe1 (s' := s.gossip (.join n m true now)) hsdn hs1n ?_
+            (by rw [hsideEq]; exact Sys.feed_nodup h1.snd _ _) ?_
             (C14.applyDelta_good now sn _ hin.wf hin.keys (Sys.deltaOK_of_good hreply))
             (own_applyDelta now _ sn)
             (SyncerSpec.trace_live_of_notLive n _ _ (fun x hx => (hap.2 x hx).2))
@@ -395,18 +411,480 @@ theorem SysInv.step_join {s : Sys} (h : SysInv s) (n m : String) (rd : Bool) (no
           · simp [Sys.gossip, Net.step, hn, hm, hnm, Net.setNode]
             rfl
           · intro k
-            have : (s.gossip (.join n m true now)).side =
-                Sys.feed (s.gossip (.join n m false now)).side n
-                  (applyDelta now sn (sortDelta (delta
-                    (applyDigest (applyDelta now sm (localDelta sn)).1 (sortDigest (digest sn))).1
-                    (sortDigest (digest sn)) true))).2 := by
-              simp [Sys.gossip, Net.step, hn, hm, hnm, Sys.replyEvents]
-            rw [this]
+            rw [hsideEq]
             exact Sys.find_feed _ _ _ hsdn k
           · intro src sa dst d hd
             have : (s.gossip (.join n m true now)).net.pool = (s.gossip (.join n m false now)).net.pool := by
               simp [Sys.gossip, Net.step, hn, hm, hnm, Net.setNode]
             rw [this] at hd
             exact h1.flow.pool _ _ _ _ hd
+
+/-! ## own writes: `LeaveLocal`, `CompactLocal` -/
+
+theorem Sys.good_plain (s : Sys) (a k v : String) (ver : Nat) (hl : k ≠ leftKey) (hc : k ≠ compactKey)
+    (hp : k ≠ Cluster.proxyAddrKey) (ha : k ≠ Cluster.adminAddrKey) :
+    s.Good a { key := k, value := v, version := ver } :=
+  ⟨by simp [entryOK, isReserved, hl, hc], fun h => absurd h hl, fun h => absurd h hp, fun h => absurd h ha⟩
+
+theorem Sys.good_tombstone {s : Sys} {a : String} {e : Entry} (ver : Nat) (h : s.Good a e)
+    (hp : e.key ≠ Cluster.proxyAddrKey) (ha : e.key ≠ Cluster.adminAddrKey) :
+    s.Good a { key := e.key, value := "", version := ver, internal := e.internal, deleted := true } :=
+  ⟨h.1, h.2.1, fun hk => absurd hk hp, fun hk => absurd hk ha⟩
+
+theorem epKey_ne_addr (e : String) : "endpoint:" ++ e ≠ Cluster.proxyAddrKey ∧ "endpoint:" ++ e ≠ Cluster.adminAddrKey :=
+  ⟨fun h => SyncerSpec.proxy_ne_epKey e h.symm, fun h => SyncerSpec.admin_ne_epKey e h.symm⟩
+
+theorem SysInv.step_leave {s : Sys} (h : SysInv s) (n : String) : SysInv (s.step (.leave n)) := by
+  cases hn : s.net.nodes.find n with
+  | none =>
+    have : s.step (.leave n) = s := by simp [Sys.step, Sys.gossip, Net.step, localOp, hn, Sys.feed_nil]
+    rw [this]; exact h
+  | some g =>
+    obtain ⟨sd, hsd⟩ := h.side_of_net hn
+    have hni := h.node n sd g hsd hn
+    have hs' : s.step (.leave n) = { net := s.net.setNode n (leaveLocal g), side := s.side } := by
+      simp [Sys.step, Sys.gossip, Net.step, localOp, hn, Sys.feed_nil]
+    rw [hs']
+    have hleft : Sys.HasLeft { net := s.net.setNode n (leaveLocal g), side := s.side } n :=
+      ⟨leaveLocal g, by simp [Net.setNode], C11.own_left_leaveLocal g⟩
+    have hle : Sys.Le s { net := s.net.setNode n (leaveLocal g), side := s.side } := by
+      refine ⟨?_, fun a x hx => hx, fun a x hx => hx⟩
+      rintro a ⟨g0, hg0, hl⟩
+      by_cases hna : n = a
+      · subst hna; exact hleft
+      · exact ⟨g0, by simp [Net.setNode, AMap.find_insert, hna, hg0], hl⟩
+    have hpres := stWF_ownPresent hni.wf
+    refine h.write1 (sd' := sd) hsd hn rfl rfl h.snd (fun k => ?_) hle (C14.leaveLocal_good hni.wf) rfl rfl rfl
+      (fun _ _ => rfl) ⟨hni.minv.lbs, hni.minv.counts, fun e => ?_⟩ (ownWF_leaveLocal hni.ownwf) ?_ ?_
+      hni.tnd hni.tloc ?_
+    · by_cases hk : n = k
+      · subst hk; simp [hsd]
+      · simp [hk]
+    · show liveValue (leaveLocal g) (Upstream.epKey e) = _
+      rw [liveValue_leaveLocal g (k := Upstream.epKey e) (epKey_ne_reserved e).1]; exact hni.minv.adv e
+    · rw [liveValue_leaveLocal g (by decide)]; exact hni.paddr
+    · rw [liveValue_leaveLocal g (by decide)]; exact hni.aaddr
+    · have hst := (h.flow.find hn).mono hle.good hle.left
+      refine Flow.leaveLocal_good hst hpres (fun ver => ?_) (by rw [hni.lid]; exact hleft)
+      rw [hni.lid]
+      exact ⟨by simp [entryOK, isReserved], fun _ => hleft,
+        fun hk => absurd (show leftKey = Cluster.proxyAddrKey from hk) (by decide),
+        fun hk => absurd (show leftKey = Cluster.adminAddrKey from hk) (by decide)⟩
+
+theorem own_left_compactLocal {g g' : CState} (hwf : OwnWF g) {thr : Nat} (hc : compactLocal g thr = some g') :
+    (own g').left = (own g).left := by
+  rcases compactLocal_some hwf hc with ⟨_, rfl⟩ | ⟨_, _, rfl⟩
+  · rfl
+  · rw [own_setOwn]; rfl
+
+theorem SysInv.step_compact {s : Sys} (h : SysInv s) (n : String) (thr : Nat) : SysInv (s.step (.compact n thr)) := by
+  cases hn : s.net.nodes.find n with
+  | none =>
+    have : s.step (.compact n thr) = s := by simp [Sys.step, Sys.gossip, Net.step, hn, Sys.feed_nil]
+    rw [this]; exact h
+  | some g =>
+    cases hc : compactLocal g thr with
+    | none =>
+      have : s.step (.compact n thr) = s := by simp [Sys.step, Sys.gossip, Net.step, hn, hc, Sys.feed_nil]
+      rw [this]; exact h
+    | some g' =>
+      obtain ⟨sd, hsd⟩ := h.side_of_net hn
+      have hni := h.node n sd g hsd hn
+      have hs' : s.step (.compact n thr) = { net := s.net.setNode n g', side := s.side } := by
+        simp [Sys.step, Sys.gossip, Net.step, hn, hc, Sys.feed_nil]
+      rw [hs']
+      have hle : Sys.Le s { net := s.net.setNode n g', side := s.side } := by
+        refine ⟨?_, fun a x hx => hx, fun a x hx => hx⟩
+        rintro a ⟨g0, hg0, hl⟩
+        by_cases hna : n = a
+        · subst hna
+          rw [hn] at hg0; cases hg0
+          exact ⟨g', by simp [Net.setNode], by rw [own_left_compactLocal hni.ownwf hc]; exact hl⟩
+        · exact ⟨g0, by simp [Net.setNode, AMap.find_insert, hna, hg0], hl⟩
+      refine h.write1 (sd' := sd) hsd hn rfl rfl h.snd (fun k => ?_) hle (C14.compactLocal_good hni.wf thr hc) rfl rfl rfl
+        (fun _ _ => rfl) ⟨hni.minv.lbs, hni.minv.counts, fun e => ?_⟩ (ownWF_compactLocal hni.ownwf hc) ?_ ?_
+        hni.tnd hni.tloc ?_
+      · by_cases hk : n = k
+        · subst hk; simp [hsd]
+        · simp [hk]
+      · show liveValue g' (Upstream.epKey e) = _
+        rw [liveValue_compactLocal hni.ownwf hc (k := Upstream.epKey e) (epKey_ne_reserved e).2]; exact hni.minv.adv e
+      · rw [liveValue_compactLocal hni.ownwf hc (by decide)]; exact hni.paddr
+      · rw [liveValue_compactLocal hni.ownwf hc (by decide)]; exact hni.aaddr
+      · have hst := (h.flow.find hn).mono hle.good hle.left
+        refine Flow.compactLocal_good hst (stWF_ownPresent hni.wf) hc (fun e ver he => he) (fun v ver => ?_)
+        exact ⟨by simp [entryOK, isReserved],
+          fun hk => absurd (show compactKey = leftKey from hk) (by decide),
+          fun hk => absurd (show compactKey = Cluster.proxyAddrKey from hk) (by decide),
+          fun hk => absurd (show compactKey = Cluster.adminAddrKey from hk) (by decide)⟩
+
+/-! ## the manager's calls: `AddConn` / `RemoveConn` -/
+
+namespace Upstream
+
+theorem own_left_upsertLocal (g : CState) (k v : String) : (own (upsertLocal g k v)).left = (own g).left := by
+  unfold upsertLocal
+  split
+  · split
+    · rfl
+    · exact left_writeOwn _ _ _
+  · exact left_writeOwn _ _ _
+
+theorem own_left_deleteLocal (g : CState) (k : String) : (own (deleteLocal g k)).left = (own g).left := by
+  unfold deleteLocal
+  split
+  · rfl
+  · split
+    · rfl
+    · exact left_writeOwn _ _ _
+
+theorem onLocal_left (c : Cluster.State) (g : CState) (e : String) :
+    (own (onLocalEndpointUpdate c g e)).left = (own g).left := by
+  unfold onLocalEndpointUpdate
+  simp only []
+  split
+  · exact own_left_upsertLocal _ _ _
+  · exact own_left_deleteLocal _ _
+
+theorem onLocal_localGood {g : CState} (c : Cluster.State) (e : String) (h : C14.StWF g) :
+    C14.LocalGood g (onLocalEndpointUpdate c g e) := by
+  unfold onLocalEndpointUpdate
+  simp only []
+  split
+  · exact C14.upsertLocal_good h _ _
+  · exact C14.deleteLocal_good h _
+
+theorem onLocal_ownWF {g : CState} (c : Cluster.State) (e : String) (h : OwnWF g) :
+    OwnWF (onLocalEndpointUpdate c g e) := by
+  unfold onLocalEndpointUpdate
+  simp only []
+  split
+  · exact ownWF_upsertLocal h _ _
+  · exact ownWF_deleteLocal h _
+
+theorem onLocal_liveValue (c : Cluster.State) (g : CState) (e k : String) (hk : "endpoint:" ++ e ≠ k) :
+    liveValue (onLocalEndpointUpdate c g e) k = liveValue g k := by
+  unfold onLocalEndpointUpdate
+  simp only []
+  split
+  · rw [liveValue_upsertLocal]; simp [hk]
+  · rw [liveValue_deleteLocal]; simp [hk]
+
+theorem onLocal_stGood {P : String → Entry → Prop} {L : String → Prop} {g : CState} (c : Cluster.State) (e : String)
+    (h : Flow.StGood P L g) (hwf : C14.StWF g)
+    (hnew : ∀ v ver, P g.localId { key := "endpoint:" ++ e, value := v, version := ver })
+    (hdel : ∀ x ver, x.key = "endpoint:" ++ e → P g.localId x →
+      P g.localId { key := x.key, value := "", version := ver, internal := x.internal, deleted := true }) :
+    Flow.StGood P L (onLocalEndpointUpdate c g e) := by
+  have hp := stWF_ownPresent hwf
+  unfold onLocalEndpointUpdate
+  simp only []
+  split
+  · exact Flow.upsertLocal_good h hp _ _ (fun ver => hnew _ ver)
+  · refine Flow.deleteLocal_good h hp _ (fun x ver hf hx => hdel x ver ?_ hx)
+    exact (C14.own_of_wf hwf).2.1.2 _ x hf
+
+/-- the manager only writes the local row's endpoint counts -/
+structure RowsSame (t t' : Cluster.State) : Prop where
+  lid : t'.localId = t.localId
+  rows : ∀ a, a ≠ t.localId → t'.nodes.find a = t.nodes.find a
+  proxy : t'.localNode.proxyAddr = t.localNode.proxyAddr
+  admin : t'.localNode.adminAddr = t.localNode.adminAddr
+  nd : t.nodes.NoDupKeys → t'.nodes.NoDupKeys
+  loc : ∀ row, t.nodes.find t.localId = some row → ∃ row', t'.nodes.find t.localId = some row' ∧ row'.id = row.id
+
+theorem RowsSame.refl (t : Cluster.State) : RowsSame t t :=
+  ⟨rfl, fun _ _ => rfl, rfl, rfl, id, fun row h => ⟨row, h, rfl⟩⟩
+
+theorem rowsSame_setLocal (t : Cluster.State) (f : AMap String Int → AMap String Int) :
+    RowsSame t (t.setLocal { t.localNode with endpoints := f t.localNode.endpoints }) :=
+  ⟨rfl, fun a ha => by simp [Cluster.State.setLocal, AMap.find_insert_ne _ _ ha], by simp, by simp,
+   fun h => h.insert _ _,
+   fun row h => ⟨{ t.localNode with endpoints := f t.localNode.endpoints },
+     by simp [Cluster.State.setLocal], by simp [Cluster.State.localNode, h]⟩⟩
+
+theorem rowsSame_add (t : Cluster.State) (e : String) : RowsSame t (t.addLocalEndpoint e) :=
+  rowsSame_setLocal t (fun eps => eps.insert e (t.localEndpointListeners e + 1))
+
+theorem rowsSame_remove (t : Cluster.State) (e : String) : RowsSame t (t.removeLocalEndpoint e).1 := by
+  unfold Cluster.State.removeLocalEndpoint
+  simp only []
+  split
+  · exact RowsSame.refl t
+  · next l _ =>
+    split
+    · exact RowsSame.refl t
+    · split
+      · exact rowsSame_setLocal t (fun eps => eps.insert e (l - 1))
+      · exact rowsSame_setLocal t (fun eps => eps.erase e)
+
+end Upstream
+
+/-- node `n`'s manager writes: new balancers `lbs'`, table `c` (local row only), and the subscriber's
+gossip write for endpoint `e` -/
+theorem SysInv.step_mgr {s : Sys} (h : SysInv s) {n : String} {sd : Side} {g : CState}
+    (hsd : s.side.find n = some sd) (hg : s.net.nodes.find n = some g)
+    (lbs' : AMap String Upstream.LB) (c : Cluster.State) (e : String)
+    (hrows : Upstream.RowsSame sd.table c)
+    (hminv : Upstream.MInv { lbs := lbs', cluster := c, gossip := Upstream.onLocalEndpointUpdate c g e }) :
+    SysInv { net := s.net.setNode n (Upstream.onLocalEndpointUpdate c g e),
+             side := s.side.insert n { sd with lbs := lbs', table := c } } := by
+  have hni := h.node n sd g hsd hg
+  have hle : Sys.Le s { net := s.net.setNode n (Upstream.onLocalEndpointUpdate c g e),
+                        side := s.side.insert n { sd with lbs := lbs', table := c } } := by
+    refine ⟨?_, ?_, ?_⟩
+    · rintro a ⟨g0, hg0, hl⟩
+      by_cases hna : n = a
+      · subst hna
+        rw [hg] at hg0; cases hg0
+        exact ⟨Upstream.onLocalEndpointUpdate c g e, by simp [Net.setNode],
+          by rw [Upstream.onLocal_left]; exact hl⟩
+      · exact ⟨g0, by simp [Net.setNode, AMap.find_insert, hna, hg0], hl⟩
+    · intro a x hx
+      unfold Sys.proxyOf at hx ⊢
+      simp only [AMap.find_insert]
+      by_cases hna : n = a
+      · subst hna
+        simp only [hsd, Option.map_some, Option.some.injEq] at hx
+        simp [hrows.proxy, hx]
+      · simpa [hna] using hx
+    · intro a x hx
+      unfold Sys.adminOf at hx ⊢
+      simp only [AMap.find_insert]
+      by_cases hna : n = a
+      · subst hna
+        simp only [hsd, Option.map_some, Option.some.injEq] at hx
+        simp [hrows.admin, hx]
+      · simpa [hna] using hx
+  have htloc : ∃ row, c.nodes.find n = some row ∧ row.id = n := by
+    obtain ⟨row, hrow, hid⟩ := hni.tloc
+    obtain ⟨row', hrow', hid'⟩ := hrows.loc row (by rw [hni.tlid]; exact hrow)
+    exact ⟨row', by rw [← hni.tlid]; exact hrow', hid'.trans hid⟩
+  refine h.write1 (sd' := { sd with lbs := lbs', table := c }) hsd hg rfl rfl (h.snd.insert _ _)
+    (fun k => by simp [AMap.find_insert]) hle (Upstream.onLocal_localGood c e hni.wf) rfl rfl hrows.lid hrows.rows
+    hminv (Upstream.onLocal_ownWF c e hni.ownwf) ?_ ?_ (hrows.nd hni.tnd) htloc ?_
+  · rw [Upstream.onLocal_liveValue c g e _ (epKey_ne_addr e).1]
+    show _ = some c.localNode.proxyAddr
+    rw [hrows.proxy]; exact hni.paddr
+  · rw [Upstream.onLocal_liveValue c g e _ (epKey_ne_addr e).2]
+    show _ = some c.localNode.adminAddr
+    rw [hrows.admin]; exact hni.aaddr
+  · have hst := (h.flow.find hg).mono hle.good hle.left
+    refine Upstream.onLocal_stGood c e hst hni.wf (fun v ver => ?_) (fun x ver hk hx => ?_)
+    · exact Sys.good_plain _ _ _ _ _ (epKey_ne_reserved e).1 (epKey_ne_reserved e).2 (epKey_ne_addr e).1 (epKey_ne_addr e).2
+    · exact Sys.good_tombstone ver hx (hk ▸ (epKey_ne_addr e).1) (hk ▸ (epKey_ne_addr e).2)
+
+theorem Sys.mgr_eq {s : Sys} {n : String} {m : Upstream.Mgr} (h : s.mgr n = some m) :
+    ∃ sd g, s.side.find n = some sd ∧ s.net.nodes.find n = some g ∧
+      m = { lbs := sd.lbs, cluster := sd.table, gossip := g } := by
+  unfold Sys.mgr at h
+  cases hs : s.side.find n with
+  | none => simp [hs] at h
+  | some sd =>
+    cases hg : s.net.nodes.find n with
+    | none => simp [hs, hg] at h
+    | some g =>
+      simp only [hs, hg, Option.some.injEq] at h
+      exact ⟨sd, g, rfl, rfl, h.symm⟩
+
+theorem SysInv.step_addConn {s : Sys} (h : SysInv s) (n : String) (uid : Nat) (ep : String) :
+    SysInv (s.step (.addConn n uid ep)) := by
+  simp only [Sys.step]
+  cases hm : s.mgr n with
+  | none => exact h
+  | some m =>
+    obtain ⟨sd, g, hsd, hg, rfl⟩ := Sys.mgr_eq hm
+    have hni := h.node n sd g hsd hg
+    simp only [Sys.putMgr, hsd, if_true]
+    exact h.step_mgr hsd hg _ (sd.table.addLocalEndpoint ep) ep (Upstream.rowsSame_add _ _)
+      (Upstream.inv_addConn _ { id := uid, ep := ep } hni.minv)
+
+/-- a registered upstream has a positive count: `RemoveLocalEndpoint` notifies -/
+theorem Upstream.notify_of_registered {m : Upstream.Mgr} (h : Upstream.MInv m) {ep : String} {uid : Nat}
+    (hreg : (m.registry ep).contains uid = true) : (m.cluster.removeLocalEndpoint ep).2 = true := by
+  have hlen : (m.registry ep).length ≠ 0 := by
+    intro h0
+    have : m.registry ep = [] := List.length_eq_zero_iff.mp h0
+    rw [this] at hreg; simp at hreg
+  have hc := h.counts ep
+  unfold Upstream.countOpt at hc
+  simp only [hlen, if_false] at hc
+  unfold Cluster.State.removeLocalEndpoint
+  simp only [hc]
+  have hne : ¬ ((m.registry ep).length : Int) = 0 := by omega
+  simp only [hne, if_false]
+  split <;> rfl
+
+theorem SysInv.step_removeConn {s : Sys} (h : SysInv s) (n : String) (uid : Nat) (ep : String) :
+    SysInv (s.step (.removeConn n uid ep)) := by
+  simp only [Sys.step]
+  cases hm : s.mgr n with
+  | none => exact h
+  | some m =>
+    obtain ⟨sd, g, hsd, hg, rfl⟩ := Sys.mgr_eq hm
+    have hni := h.node n sd g hsd hg
+    simp only []
+    by_cases hreg : (Upstream.Mgr.registry { lbs := sd.lbs, cluster := sd.table, gossip := g } ep).contains uid = true
+    · have hnot := Upstream.notify_of_registered hni.minv hreg
+      simp only [hreg, if_true, Sys.putMgr, hsd]
+      have hinv := Upstream.inv_removeConn _ { id := uid, ep := ep } hni.minv
+      have hlb : ∃ lb, sd.lbs.find ep = some lb ∧ lb.contains uid = true := by
+        unfold Upstream.Mgr.registry at hreg
+        cases hf : sd.lbs.find ep with
+        | none => simp [hf] at hreg
+        | some lb => exact ⟨lb, rfl, by simpa [hf, Upstream.LB.contains] using hreg⟩
+      obtain ⟨lb, hlb, hc⟩ := hlb
+      simp only [] at hnot
+      have hshape : Upstream.Mgr.removeConn { lbs := sd.lbs, cluster := sd.table, gossip := g } { id := uid, ep := ep } =
+          { lbs := (Upstream.Mgr.removeConn { lbs := sd.lbs, cluster := sd.table, gossip := g } { id := uid, ep := ep }).lbs,
+            cluster := (sd.table.removeLocalEndpoint ep).1,
+            gossip := Upstream.onLocalEndpointUpdate (sd.table.removeLocalEndpoint ep).1 g ep } := by
+        simp [Upstream.Mgr.removeConn, hlb, hc, hnot]
+      rw [hshape] at hinv ⊢
+      simp only [hnot, if_true]
+      exact h.step_mgr hsd hg _ (sd.table.removeLocalEndpoint ep).1 ep (Upstream.rowsSame_remove _ _) hinv
+    · simp only [hreg]; exact h
+
+/-! ## a node starts -/
+
+theorem Gossip.C14.LocalGood.trans {a b c : CState} (h1 : C14.LocalGood a b) (h2 : C14.LocalGood b c) : C14.LocalGood a c :=
+  ⟨h2.wf, fun hk => h2.keys (h1.keys hk), h2.lid.trans h1.lid, h2.vis.trans h1.vis⟩
+
+theorem SysInv.step_boot {s : Sys} (h : SysInv s) (id ga pa aa : String) : SysInv (s.step (.boot id ga pa aa)) := by
+  simp only [Sys.step]
+  split
+  swap
+  · exact h
+  next hnone _ hsnone =>
+  -- abbreviations
+  have hg0 : Upstream.syncInit (Sys.bootTable id pa aa) (Gossip.init id ga) =
+      upsertLocal (upsertLocal (Gossip.init id ga) "proxy_addr" pa) "admin_addr" aa := Sys.syncInit_boot id ga pa aa
+  rw [hg0]
+  have hloc : (Sys.bootTable id pa aa).localNode = { id := id, status := .active, proxyAddr := pa, adminAddr := aa } := by
+    simp [Sys.bootTable, Cluster.State.new, Cluster.State.localNode]
+  have hfindS : ∀ k, (s.side.insert id ({ table := Sys.bootTable id pa aa } : Side)).find k =
+      if id = k then some { table := Sys.bootTable id pa aa } else s.side.find k := fun k => AMap.find_insert _ _ _ _
+  have hle : Sys.Le s { net := s.net.setNode id (upsertLocal (upsertLocal (Gossip.init id ga) "proxy_addr" pa) "admin_addr" aa),
+                        side := s.side.insert id { table := Sys.bootTable id pa aa } } := by
+    refine ⟨?_, ?_, ?_⟩
+    · rintro a ⟨g0, hg0', hl⟩
+      have hna : ¬ id = a := by intro e; rw [← e, hnone] at hg0'; cases hg0'
+      exact ⟨g0, by simp [Net.setNode, AMap.find_insert, hna, hg0'], hl⟩
+    · intro a x hx
+      unfold Sys.proxyOf at hx ⊢
+      have hna : ¬ id = a := by intro e; rw [← e, hsnone] at hx; cases hx
+      simpa [AMap.find_insert, hna] using hx
+    · intro a x hx
+      unfold Sys.adminOf at hx ⊢
+      have hna : ¬ id = a := by intro e; rw [← e, hsnone] at hx; cases hx
+      simpa [AMap.find_insert, hna] using hx
+  have hwf0 := C14.stWF_init id ga
+  have hlg1 := C14.upsertLocal_good hwf0 "proxy_addr" pa
+  have hlg2 := C14.upsertLocal_good hlg1.wf "admin_addr" aa
+  have hlg := hlg1.trans hlg2
+  have hlid : (upsertLocal (upsertLocal (Gossip.init id ga) "proxy_addr" pa) "admin_addr" aa).localId = id := hlg.lid
+  have hlive1 : ∀ k, liveValue (upsertLocal (upsertLocal (Gossip.init id ga) "proxy_addr" pa) "admin_addr" aa) k =
+      if "admin_addr" = k then some aa else if "proxy_addr" = k then some pa else none := by
+    intro k
+    rw [liveValue_upsertLocal, liveValue_upsertLocal, liveValue_init]
+  refine ⟨h.nd.insert _ _, h.snd.insert _ _, ?_, ?_, ?_⟩
+  · intro k
+    simp only [Net.setNode, AMap.find_insert]
+    by_cases hk : id = k
+    · simp [hk]
+    · simp only [hk, if_false]; exact h.dom k
+  · refine ⟨?_, fun src sa dst d hd => (h.flow.pool src sa dst d hd).mono hle.good⟩
+    intro p hp
+    rcases C11.mem_insert hp with rfl | hp
+    · -- the fresh node: two good entries
+      have hst0 : Flow.StGood
+          (Sys.Good { net := s.net.setNode id (upsertLocal (upsertLocal (Gossip.init id ga) "proxy_addr" pa) "admin_addr" aa),
+                      side := s.side.insert id { table := Sys.bootTable id pa aa } })
+          (Sys.HasLeft { net := s.net.setNode id (upsertLocal (upsertLocal (Gossip.init id ga) "proxy_addr" pa) "admin_addr" aa),
+                         side := s.side.insert id { table := Sys.bootTable id pa aa } })
+          (Gossip.init id ga) := by
+        intro q hq
+        simp only [Gossip.init, List.mem_cons, List.not_mem_nil, or_false] at hq
+        subst hq
+        exact Flow.viewGood_fresh _ _
+      have hst1 := Flow.upsertLocal_good hst0 (ownPresent_init id ga) "proxy_addr" pa (fun ver =>
+        ⟨by simp [entryOK, isReserved, leftKey, compactKey],
+         fun hk => absurd (show "proxy_addr" = leftKey from hk) (by decide),
+         fun _ => ⟨rfl, by simp [Sys.proxyOf, Gossip.init, AMap.find_insert, hloc]⟩,
+         fun hk => absurd (show "proxy_addr" = Cluster.adminAddrKey from hk) (by decide)⟩)
+      exact Flow.upsertLocal_good hst1 (ownPresent_upsertLocal _ _ _ (ownPresent_init id ga)) "admin_addr" aa (fun ver =>
+        ⟨by simp [entryOK, isReserved, leftKey, compactKey],
+         fun hk => absurd (show "admin_addr" = leftKey from hk) (by decide),
+         fun hk => absurd (show "admin_addr" = Cluster.proxyAddrKey from hk) (by decide),
+         fun _ => ⟨rfl, by
+           have : (upsertLocal (Gossip.init id ga) "proxy_addr" pa).localId = id := hlg1.lid
+           simp [Sys.adminOf, this, AMap.find_insert, hloc]⟩⟩)
+    · exact (h.flow.nodes p hp).mono hle.good hle.left
+  · intro k sdk gk hsk hgk
+    rw [hfindS] at hsk
+    simp only [Net.setNode, AMap.find_insert] at hgk
+    by_cases hk : id = k
+    · subst hk
+      simp only [if_true, Option.some.injEq] at hsk hgk
+      subst hsk hgk
+      exact
+        { lid := hlid
+          wf := hlg.wf
+          keys := hlg.keys (C14.keysOK_init id ga)
+          fold := by
+            show C14.foldOK [] _
+            have := C14.foldOK_init id ga
+            unfold C14.foldOK at *; rw [hlg.vis]; exact this
+          evok := rfl
+          live := trivial
+          addr := fun a k v hm => by simp at hm
+          tlid := rfl
+          pend := fun a x hx => by simp [Side.sync] at hx
+          agree := by
+            refine ⟨rfl, fun a hne => ?_⟩
+            have hne' : ¬ id = a := fun e => hne (by simp [Side.sync, Sys.bootTable, Cluster.State.new, e])
+            simp [SyncerSpec.atNode, Side.sync, Sys.bootTable, Cluster.State.new, Cluster.Sync.new, Cluster.Sync.run, hne']
+          minv := by
+            refine ⟨fun e lb hf => by simp at hf, fun e => ?_, fun e => ?_⟩
+            · simp [hloc, Upstream.Mgr.registry, Upstream.countOpt]
+            · show liveValue _ (Upstream.epKey e) = _
+              rw [hlive1]
+              have h1 : ¬ "admin_addr" = Upstream.epKey e := fun hh => (epKey_ne_addr e).2 hh.symm
+              have h2 : ¬ "proxy_addr" = Upstream.epKey e := fun hh => (epKey_ne_addr e).1 hh.symm
+              simp [h1, h2, Upstream.Mgr.registry, Upstream.advOpt]
+          ownwf := ownWF_upsertLocal (ownWF_upsertLocal (ownWF_init id ga) _ _) _ _
+          paddr := by rw [hlive1, hloc]; simp [Cluster.proxyAddrKey]
+          aaddr := by rw [hlive1, hloc]; simp [Cluster.adminAddrKey]
+          tnd := by simp [Sys.bootTable, Cluster.State.new, AMap.NoDupKeys, AMap.keys]
+          tloc := ⟨{ id := id, status := .active, proxyAddr := pa, adminAddr := aa },
+            by simp [Sys.bootTable, Cluster.State.new], rfl⟩ }
+    · simp only [hk, if_false] at hsk hgk
+      exact (h.node k sdk gk hsk hgk).mono hle.proxy hle.admin
+
+/-! ## every allowed step, every reachable state -/
+
+theorem sysInv_empty : SysInv {} := by
+  refine ⟨AMap.noDupKeys_nil, AMap.noDupKeys_nil, fun n => rfl, ⟨fun p hp => by simp at hp, fun _ _ _ _ hd => by simp at hd⟩, ?_⟩
+  intro n sd g hs; simp at hs
+
+/-- **Every allowed step preserves the system invariant.** -/
+theorem SysInv.step {s : Sys} (h : SysInv s) (op : SysOp) (ha : SysStepAllowed s op) : SysInv (s.step op) := by
+  cases op with
+  | boot id ga pa aa => exact h.step_boot id ga pa aa
+  | addConn n uid ep => exact h.step_addConn n uid ep
+  | removeConn n uid ep => exact h.step_removeConn n uid ep
+  | leave n => exact h.step_leave n
+  | compact n thr => exact h.step_compact n thr
+  | sendDigest n dst rq perm cut => exact h.step_sendDigest n dst rq perm cut
+  | deliver i cut perm dcut now => exact h.step_deliver i cut perm dcut now
+  | join n m rd now => exact h.step_join n m rd now
+  | leaveStream n m now => exact h.step_leaveStream n m now
+  | liveness n sus now => exact h.step_liveness n sus now
+  | expire n t => exact ha.elim
+
+/-- **The system invariant holds of every reachable state.** -/
+theorem sysInv_runRev : ∀ ops : List SysOp, SysAllowed ops → SysInv (Sys.runRev ops)
+  | [], _ => sysInv_empty
+  | op :: earlier, h => (sysInv_runRev earlier h.1).step op h.2
 
 end Piko
